@@ -290,6 +290,20 @@ func (fc *FnCtx) applyContract(c *Contract, cname string, names []string, typs [
 		}
 	}
 	_ = site
+	if fc.initPhase {
+		// during initialisation the global invariants a callee relies on must be proved
+		for _, g := range c.Globals {
+			genv := fc.newEnv(pre)
+			genv.callee = true
+			genv.pkg = env.pkg
+			t, err := fc.specBool(genv, g)
+			if err != nil {
+				fc.unbound = append(fc.unbound, fmt.Sprintf("call %s global %q: %v", cname, g, err))
+				continue
+			}
+			fc.oblige("pre-global", cname+": "+g, pos, t)
+		}
+	}
 	// effects
 	st := fc.cur
 	if !c.Pure {
